@@ -35,7 +35,7 @@ LEVEL_TEXT = (
 )
 LEVEL_NOTE = "Trusts the step observer (live WORKING vs displayed READY on absence steps) and the dump of all logs."
 
-CFG_A = gen.Cfg(warm_modes=["morph", "graft", "append", "nolog"], warm=2, facilities=True, max_time=[40, 80], float_mode=8, abs_max=14, abs_p=2, abs_size=6)
+CFG_A = gen.Cfg(warm_modes=["morph", "graft", "append", "nolog", "cutrerun"], warm=2, facilities=True, max_time=[40, 80], float_mode=8, abs_max=14, abs_p=2, abs_size=6)
 CFG_B = gen.Cfg(
     servable=3,
     rules=[0, 1, 2, 3, 4, 4, 4, 4, 5, 6, 7, 8],  # FIFO counts log entries: the rule most exposed to absence steps
